@@ -1309,13 +1309,13 @@ theorem ewma_variants_agree_step (chk : Bool) (smoothing : F) (sq : EwmaS (Quant
       injection h with h
       injection h with h1 h2
       subst h1; subst h2
-      refine ⟨⟨projOut (.ok v), tq⟩, ?_, rfl, rfl⟩
+      refine ⟨⟨projOut (.ok v), tf⟩, ?_, rfl, rfl⟩
       cases v <;> rfl
   | .ok (some o) =>
     by_cases hv : ∃ prev, vq = .ok (some prev)
     · obtain ⟨prev, hv⟩ := hv
       subst hv
-      cases tq with
+      cases tf with
       | none => simp only [Ewma.step] at h; cases h
       | some tp =>
         rw [ewma_formula _ _ smoothing _ o prev tp rfl rfl] at h
@@ -1474,7 +1474,8 @@ theorem ma_variants_agree_step (chk : Bool) (hzero : ∀ x : F, c0 + x = x) (win
       simp only at h
       have ht' : Ma.trim ((projD o).time - window) (qq.map projD ++ [projD o]) = .ok (q.map projD) := by
         have := trim_map (o.time - window) (qq ++ [o]) q ht
-        simpa using this
+        simp only [List.map_append, List.map_cons, List.map_nil] at this
+        exact this
       cases hacc : Ma.accumulate (scaleQs chk) (Quantity.add chk) none (maTerms (o.time - window) q) with
       | error p => simp only [maTerms] at hacc; rw [hacc] at h; cases h
       | ok ov =>
@@ -1517,5 +1518,130 @@ theorem ma_variants_agree (chk : Bool) (hzero : ∀ x : F, c0 + x = x) (window :
 theorem ma_init_rel : MaRel (Ma.init : MaS (Quantity F)) (Ma.init : MaS F) := ⟨rfl, rfl⟩
 
 end L
+
+/-! ## non-vacuity: concrete instances of the hypotheses (payloads in `ℚ` / `Int`) -/
+section Examples
+
+/-- a history with a repeated timestamp, an absent event, an error, an absent event after the error -/
+def exEvs : List (Output ℚ) :=
+  [.ok (some ⟨0, 1⟩), .ok none, .ok (some ⟨5, 3⟩), .error (.other 1), .ok none, .ok (some ⟨5, 2⟩), .ok (some ⟨7, 4⟩)]
+
+/-- `NonDecr` (hypothesis of `ma_run_inv`, `ma_queue_invariant`, `ma_queue_is_window`, `ma_convex_history`,
+`ma_constant`, `ewma_run_bounds`, `ewma_convex_history`, `ewma_constant`) holds for it -/
+example : NonDecr exEvs := by unfold NonDecr; decide
+example : NonDecr ([.ok (some ⟨0, 1⟩), .ok none, .ok (some ⟨5, 3⟩), .error (.other 1), .ok none,
+    .ok (some ⟨5, 2⟩)] ++ [(.ok (some ⟨7, 4⟩) : Output ℚ)]) := by unfold NonDecr; decide
+/-- and fails for a decreasing one, so it is a real restriction -/
+example : ¬ NonDecr [(.ok (some ⟨5, 1⟩) : Output ℚ), .ok (some ⟨4, 1⟩)] := by unfold NonDecr; decide
+example : sinceReset [] exEvs = [⟨5, 2⟩, ⟨7, 4⟩] := rfl
+example : presentTimes exEvs = [0, 5, 5, 7] := rfl
+
+/-- the f32 moving average over `ℚ`, window 4 ns, on that history: the window after the last sample is
+`[(5,2), (7,4)]`, weights 2 ns and 2 ns, output (2·2 + 4·2)/4 = 3 at time 7 -/
+example : runE (Ma.step scaleF addF divF (some (c0 : ℚ)) 4) Ma.init exEvs =
+    .ok ⟨.ok (some ⟨7, 3⟩), [⟨5, 2⟩, ⟨7, 4⟩]⟩ := by
+  have s1 := ma_first_sample (F := ℚ) 4 (by decide) Ma.init ⟨0, 1⟩ rfl
+  have s2 := ma_absent_event_ok scaleF addF divF (some (c0 : ℚ)) 4 ⟨.ok (some ⟨0, 1⟩), [⟨0, 1⟩]⟩ _ rfl
+  have s3 : Ma.step scaleF addF divF (some (c0 : ℚ)) 4 ⟨.ok (some ⟨0, 1⟩), [⟨0, 1⟩]⟩ (.ok (some ⟨5, 3⟩)) =
+      .ok (⟨.ok (some ⟨5, 3⟩), [⟨5, 3⟩]⟩, .ok ()) := by
+    have h := ma_step_present_eq scaleF addF divF (some (c0 : ℚ)) 4 ⟨.ok (some ⟨0, 1⟩), [⟨0, 1⟩]⟩ ⟨5, 3⟩
+      [⟨5, 3⟩] _ rfl (accumulate_f32_eq _)
+    have e : divF (wsumR (maTerms (F := ℚ) ((⟨5, 3⟩ : Datum ℚ).time - 4) [⟨5, 3⟩])) (secs 4) = (3 : ℚ) := by
+      norm_num [divF, wsumR, maTerms, Ma.weightsNs, secs_eq]
+    rw [e] at h
+    exact h
+  have s4 := (ma_error_event scaleF addF divF (some (c0 : ℚ)) 4 ⟨.ok (some ⟨5, 3⟩), [⟨5, 3⟩]⟩ (.other 1)).1
+  have s5 := ma_absent_event scaleF addF divF (some (c0 : ℚ)) 4 ⟨.error (.other 1), []⟩
+  have s6 := ma_first_sample (F := ℚ) 4 (by decide) ⟨.ok none, []⟩ ⟨5, 2⟩ rfl
+  have s7 : Ma.step scaleF addF divF (some (c0 : ℚ)) 4 ⟨.ok (some ⟨5, 2⟩), [⟨5, 2⟩]⟩ (.ok (some ⟨7, 4⟩)) =
+      .ok (⟨.ok (some ⟨7, 3⟩), [⟨5, 2⟩, ⟨7, 4⟩]⟩, .ok ()) := by
+    have h := ma_step_present_eq scaleF addF divF (some (c0 : ℚ)) 4 ⟨.ok (some ⟨5, 2⟩), [⟨5, 2⟩]⟩ ⟨7, 4⟩
+      [⟨5, 2⟩, ⟨7, 4⟩] _ rfl (accumulate_f32_eq _)
+    have e : divF (wsumR (maTerms (F := ℚ) ((⟨7, 4⟩ : Datum ℚ).time - 4) [⟨5, 2⟩, ⟨7, 4⟩])) (secs 4) = (3 : ℚ) := by
+      norm_num [divF, wsumR, maTerms, Ma.weightsNs, secs_eq]
+    rw [e] at h
+    exact h
+  simp only [exEvs, runE, s1, s2, s3, s4, s5, s6, s7]
+
+/-- `WinQueue` (hypothesis of `ma_weights_nonneg`, `ma_weights_sum_window`, `ma_weights_le_window`,
+`maTerms_weights`, `ma_value_convex`) and the resulting weights -/
+example : WinQueue 4 (⟨7, 4⟩ : Datum Int) [⟨5, 2⟩, ⟨7, 4⟩] := by
+  refine ⟨by simp, by simp [Sorted], ?_, [⟨5, 2⟩], rfl⟩
+  intro d hd
+  simp at hd
+  rcases hd with rfl | rfl <;> simp
+example : Ma.weightsNs (7 - 4) [(⟨5, 2⟩ : Datum Int), ⟨7, 4⟩] = [2, 2] := rfl
+example : WinQueue 4 (⟨7, 4⟩ : Datum Int) [⟨4, 9⟩, ⟨5, 2⟩, ⟨7, 4⟩] := by
+  refine ⟨by simp, by simp [Sorted], ?_, [⟨4, 9⟩, ⟨5, 2⟩], rfl⟩
+  intro d hd
+  simp at hd
+  rcases hd with rfl | rfl | rfl <;> simp
+example : Ma.weightsNs (7 - 4) [(⟨4, 9⟩ : Datum Int), ⟨5, 2⟩, ⟨7, 4⟩] = [1, 1, 2] := rfl
+
+/-- sorted queue not newer than the sample (hypotheses of `ma_step_present_inv`, `ma_convex`) -/
+example : Sorted [(⟨4, 9⟩ : Datum ℚ), ⟨5, 2⟩] ∧ ∀ d ∈ [(⟨4, 9⟩ : Datum ℚ), ⟨5, 2⟩], d.time ≤ (⟨7, 4⟩ : Datum ℚ).time := by
+  refine ⟨by simp [Sorted], ?_⟩
+  intro d hd
+  simp at hd
+  rcases hd with rfl | rfl <;> simp
+example : maWindow 4 [(⟨3, 8⟩ : Datum ℚ), ⟨4, 9⟩, ⟨5, 2⟩] ⟨7, 4⟩ = [⟨4, 9⟩, ⟨5, 2⟩, ⟨7, 4⟩] := by decide
+
+/-- the closure hypotheses `hs ha hz` / `hadd` are met by the two driver instantiations -/
+example : ∀ a b : ℚ, addF a b = .ok (a + b) := fun _ _ => rfl
+example : ∀ a b : ℚ, ∃ c, addF a b = .ok c := fun a b => ⟨a + b, rfl⟩
+example (chk : Bool) (a b : Quantity ℚ) (h : a.unit = b.unit) :
+    Quantity.add chk a b = .ok ⟨a.value + b.value, a.unit⟩ := qadd_same_unit chk a b (fun _ => h)
+/-- same-unit hypothesis of `ma_no_panic_quantity` / `ewma_no_panic_quantity` -/
+example : ∀ d, Except.ok (some d) ∈
+    [(.ok (some ⟨0, ⟨1, ⟨1, 0⟩⟩⟩) : Output (Quantity ℚ)), .ok none, .error .fromNone, .ok (some ⟨3, ⟨2, ⟨1, 0⟩⟩⟩)] →
+    d.value.unit = ⟨1, 0⟩ := by
+  intro d hd
+  simp at hd
+  rcases hd with rfl | rfl <;> rfl
+
+/-- EWMA state hypotheses (`ewma_formula`, `ewma_convex`): a held value with its update time -/
+example : ((⟨.ok (some ⟨3, 10⟩), some 3⟩ : EwmaS ℚ).value = .ok (some ⟨3, 10⟩)) ∧
+    ((⟨.ok (some ⟨3, 10⟩), some 3⟩ : EwmaS ℚ).updateTime = some 3) ∧ (3 : Int) ≤ 5 := ⟨rfl, rfl, by decide⟩
+/-- no-value hypothesis of `ewma_first_sample(_unchanged)` -/
+example : ∀ v, (Ewma.init : EwmaS ℚ).value ≠ .ok (some v) := fun v h => by cases h
+example : ∀ v, ((⟨.error .fromNone, none⟩ : EwmaS ℚ)).value ≠ .ok (some v) := fun v h => by cases h
+example : EwmaInv (⟨.ok (some ⟨3, 10⟩), some 3⟩ : EwmaS ℚ) := by
+  intro v h; injection h with h; injection h with h; rw [← h]
+/-- smoothing in `[0,1]` and the `powf` facts hold for the exact-scalar instance on `ℚ` -/
+example : (0 : ℚ) ≤ 1 / 4 ∧ (1 / 4 : ℚ) ≤ 1 := by norm_num
+example : ∀ b : ℚ, FloatLike.powf b (0 : ℚ) = 1 := fun _ => rfl
+example : ∀ b d : ℚ, 0 ≤ b → b ≤ 1 → 0 ≤ d → 0 ≤ FloatLike.powf b d ∧ FloatLike.powf b d ≤ 1 :=
+  fun _ _ _ _ _ => by constructor <;> norm_num [FloatLike.powf]
+/-- the law of tier L holds in `ℚ` -/
+example : ∀ x : ℚ, c0 + x = x := fun x => by simp [c0, FloatLike.ofInt]
+/-- related states (`EwmaRel`, `MaRel`) -/
+example : EwmaRel (⟨.ok (some ⟨3, ⟨10, ⟨1, 0⟩⟩⟩), some 3⟩ : EwmaS (Quantity ℚ)) ⟨.ok (some ⟨3, 10⟩), some 3⟩ :=
+  ⟨rfl, rfl⟩
+example : MaRel (⟨.ok (some ⟨3, ⟨10, ⟨1, 1⟩⟩⟩), [⟨3, ⟨10, ⟨1, 0⟩⟩⟩]⟩ : MaS (Quantity ℚ)) ⟨.ok (some ⟨3, 10⟩), [⟨3, 10⟩]⟩ :=
+  ⟨rfl, rfl⟩
+/-- the Quantity moving average does run without panic on a same-unit history (hypothesis of
+`ma_variants_agree`), and produces the same number 3 as the f32 one above, in mm·s/s = mm -/
+example : ∃ s, runE (Ma.step (scaleQs true) (Quantity.add true) (divQs true) none 4) Ma.init
+    [(.ok (some ⟨5, ⟨2, ⟨1, 0⟩⟩⟩) : Output (Quantity ℚ)), .ok (some ⟨7, ⟨4, ⟨1, 0⟩⟩⟩)] = .ok s :=
+  ma_no_panic_quantity true 4 (by decide) ⟨1, 0⟩ _ (by
+    intro d hd
+    simp at hd
+    rcases hd with rfl | rfl <;> rfl)
+
+/-! ### scope of "no update panics": the model computes timestamps in unbounded `Int`
+
+`output.time - self.window` and `output.time - prev_time` are `i64` subtractions (`impl Sub for Time`, unchecked
+`self.0 - rhs.0`).  The model (`Ma.step`, `Ewma.step`) performs them in `Int`, so the no-panic theorems above do
+not cover their overflow.  On the real code (debug build) `ss ma f 1 S@-9223372036854775808@1.0` and
+`ss ewma f 0.5 S@-9223372036854775808@1.0 S@9223372036854775807@2.0` (non-decreasing timestamps, window 1 > 0)
+panic with "attempt to subtract with overflow", whereas the model returns `ok`.  All other integer subtractions
+of the moving average are covered: by `ma_weights_le_window` every `end_times[i] - start_times[i]` lies in
+`[0, window]`. -/
+example : I64.sub (-9223372036854775808) 1 = .error .overflow := rfl
+example : I64.sub 9223372036854775807 (-9223372036854775808) = .error .overflow := rfl
+example : ∃ s, runE (Ma.step scaleF addF divF (some (c0 : ℚ)) 1) Ma.init
+    [.ok (some ⟨-9223372036854775808, 1⟩)] = .ok s := ma_no_panic_f32 1 (by decide) _
+
+end Examples
 
 end Rrtk.Thm.C12
